@@ -32,7 +32,14 @@ fn placeholder_schema(rng: &mut Rng) -> Schema {
     s
 }
 
+/// a panic of the code under test is an answer that is neither acceptance nor the hierarchy error ("other")
 fn reader_verdict(chain: &[u64], unk: &[bool], tag: u64, is_master: bool, ty: TagDataType) -> (String, Value) {
+    std::panic::catch_unwind(|| reader_verdict_raw(chain, unk, tag, is_master, ty)).unwrap_or_else(|_| ("other".into(), json!([])))
+}
+fn guarded<T>(f: impl FnOnce() -> Result<(), T>) -> Result<Result<(), T>, ()> {
+    std::panic::catch_unwind(std::panic::AssertUnwindSafe(f)).map_err(|_| ())
+}
+fn reader_verdict_raw(chain: &[u64], unk: &[bool], tag: u64, is_master: bool, ty: TagDataType) -> (String, Value) {
     // bytes: chain masters (known sizes cover everything that follows), then the element
     let mut elem = gen::id_bytes(tag);
     if is_master { elem.push(0x80); } else {
@@ -93,8 +100,11 @@ pub fn run(out: &mut Out, seed: u64, thorough: bool) {
                 let is_master = e.ty == TagDataType::Master;
                 let as_unknown = is_master && rng.chance(1, 3);
                 let tag = if is_master { DynTag { id: e.id, v: DynVal::M(Master::Start) } } else { gen::to_tag(&gen::Node::leaf(e.id, gen::rand_val(&mut rng, e.ty, false, false).0)) };
-                let r = if as_unknown { w.write_advanced(&tag, WriteOptions::is_unknown_sized_element()) } else { w.write(&tag) };
+                let g = guarded(|| if as_unknown { w.write_advanced(&tag, WriteOptions::is_unknown_sized_element()) } else { w.write(&tag) });
+                let panicked = g.is_err();
+                let r = g.unwrap_or(Ok(()));
                 let (wv, wid) = match &r {
+                    _ if panicked => ("other".to_string(), json!([])),
                     Ok(()) => ("ok".to_string(), json!([])),
                     Err(TagWriterError::UnexpectedTag { tag_id, .. }) => ("unexpected_tag".to_string(), idw(*tag_id)),
                     Err(_) => ("other".to_string(), json!([])),
@@ -104,6 +114,7 @@ pub fn run(out: &mut Out, seed: u64, thorough: bool) {
                 let (rv, rid) = if rooted && (!chain.is_empty() || e.path.is_empty()) { reader_verdict(&chain, &unk, e.id, is_master, e.ty) } else { ("na".to_string(), json!([])) };
                 out.ev(json!({"ev":"path","chain":chain.iter().map(|c| idw(*c)).collect::<Vec<_>>(),"unk":unk,"tag":idw(e.id),"tag_unknown":as_unknown,
                               "w":wv,"wid":wid,"r":rv,"rid":rid}));
+                if panicked { break; }
                 if r.is_ok() && is_master { chain.push(e.id); unk.push(as_unknown); }
             }
         }
@@ -123,14 +134,17 @@ pub fn run(out: &mut Out, seed: u64, thorough: bool) {
                     let mut opened = true;
                     for (k, id) in chain.iter().enumerate() {
                         let st = DynTag { id: *id, v: DynVal::M(Master::Start) };
-                        let r = if unk[k] { w.write_advanced(&st, WriteOptions::is_unknown_sized_element()) } else { w.write(&st) };
-                        if r.is_err() { opened = false; break; }
+                        let r = guarded(|| if unk[k] { w.write_advanced(&st, WriteOptions::is_unknown_sized_element()) } else { w.write(&st) });
+                        if !matches!(r, Ok(Ok(()))) { opened = false; break; }
                     }
                     if !opened { continue; }
                     let is_master = e.ty == TagDataType::Master;
                     let tag = if is_master { DynTag { id: e.id, v: DynVal::M(Master::Start) } } else { gen::to_tag(&gen::Node::leaf(e.id, gen::rand_val(&mut rng, e.ty, false, false).0)) };
-                    let r = w.write(&tag);
+                    let g = guarded(|| w.write(&tag));
+                    let panicked = g.is_err();
+                    let r = g.unwrap_or(Ok(()));
                     let (wv, wid) = match &r {
+                        _ if panicked => ("other".to_string(), json!([])),
                         Ok(()) => ("ok".to_string(), json!([])),
                         Err(TagWriterError::UnexpectedTag { tag_id, .. }) => ("unexpected_tag".to_string(), idw(*tag_id)),
                         Err(_) => ("other".to_string(), json!([])),
@@ -171,10 +185,12 @@ pub fn exhaustive(out: &mut Out, seed: u64, stride: u64) {
             let mut dest: Vec<u8> = Vec::new();
             let mut w = TagWriter::new(&mut dest);
             let mut opened = true;
-            for m in c { if w.write(&DynTag { id: *m, v: DynVal::M(Master::Start) }).is_err() { opened = false; break; } }
+            for m in c { if !matches!(guarded(|| w.write(&DynTag { id: *m, v: DynVal::M(Master::Start) })), Ok(Ok(()))) { opened = false; break; } }
             if !opened { continue; }
-            let r = w.write(&DynTag { id: 0x90, v: DynVal::U(1) });
-            let (wv, wid) = match &r { Ok(()) => ("ok".to_string(), json!([])), Err(TagWriterError::UnexpectedTag { tag_id, .. }) => ("unexpected_tag".to_string(), idw(*tag_id)), Err(_) => ("other".to_string(), json!([])) };
+            let g = guarded(|| w.write(&DynTag { id: 0x90, v: DynVal::U(1) }));
+            let panicked = g.is_err();
+            let r = g.unwrap_or(Ok(()));
+            let (wv, wid) = match &r { _ if panicked => ("other".to_string(), json!([])), Ok(()) => ("ok".to_string(), json!([])), Err(TagWriterError::UnexpectedTag { tag_id, .. }) => ("unexpected_tag".to_string(), idw(*tag_id)), Err(_) => ("other".to_string(), json!([])) };
             out.ev(json!({"ev":"path","chain":c.iter().map(|x| idw(*x)).collect::<Vec<_>>(),"unk":c.iter().map(|_| false).collect::<Vec<_>>(),"tag":idw(0x90),"tag_unknown":false,"w":wv,"wid":wid,"r":"na","rid":[]}));
         }
         out.ev(json!({"ev":"end"}));
